@@ -348,14 +348,29 @@ class AsyncRaising:
         raise RuntimeError("resolver down")
 
 
-KINDS = ["static", "static-async", "raise", "raise-async", "none"]
+class Flapping:
+    """fails on its first call, works afterwards (a resolver backend that recovers)"""
+
+    def __init__(self, graph):
+        self.inner, self.calls = StaticRoleResolver(graph), 0
+
+    def expand(self, roles):
+        self.calls += 1
+        if self.calls == 1:
+            raise RuntimeError("resolver down")
+        return self.inner.expand(roles)
+
+
+# "+cache": the same request is evaluated twice on one Guard with a decision cache; what is judged is the SECOND evaluation
+KINDS = ["static", "static-async", "raise", "raise-async", "none", "static+cache", "static+flap+cache"]
 FLAVOURS = ["sync", "async", "async-collab-async", "sync-in-loop"]
 R = {"attr": "subject.roles"}
 
 
 def make_resolver(kind: str, graph: dict):
     return {"static": lambda: StaticRoleResolver(graph), "static-async": lambda: AsyncStatic(graph),
-            "raise": Raising, "raise-async": AsyncRaising, "none": lambda: None}[kind]()
+            "raise": Raising, "raise-async": AsyncRaising, "none": lambda: None,
+            "static+cache": lambda: StaticRoleResolver(graph), "static+flap+cache": lambda: Flapping(graph)}[kind]()
 
 
 PREDS = {
@@ -402,7 +417,18 @@ def engine_real(graph: dict, roles, policy: dict, kind: str, flavour: str) -> di
         cfg["resolver"] = res
     try:
         with deadline(10.0):
-            return real.run_guard(policy, make_req(roles), cfg, flavour)
+            if "+cache" not in kind:
+                return real.run_guard(policy, make_req(roles), cfg, flavour)
+            from rbacx.core.cache import DefaultInMemoryCache
+            events: list = []
+            try:
+                g = real.make_guard(policy, cfg, events, flavour=flavour, cache=DefaultInMemoryCache(16))
+                real.call_guard(g, make_req(roles), flavour)
+                del events[:]
+                d = real.call_guard(g, make_req(roles), flavour)
+            except Exception as e:  # noqa: BLE001
+                return {"raised": real.exc_class(e)}
+            return {"ok": real.render_decision(d, list(events))}
     except Timeout:
         return {"raised": "Timeout"}
 
